@@ -15,6 +15,7 @@ import (
 // makes the client panic.
 
 type c05Scenario struct {
+	WebSocket bool       `json:"websocket"`
 	Component bool       `json:"component"`
 	Client    ClientOpts `json:"client"`
 	Server    NegScript  `json:"server"`
@@ -42,6 +43,8 @@ func init() {
 func runC05(e *Engine, g G, o RunOpt) RunInfo {
 	sc := &c05Scenario{Client: DefaultClientOpts(), Server: DefaultNeg()}
 	sc.Component = g.Pct("component", 30)
+	sc.WebSocket = !sc.Component && !o.Avoiding("websocket") && g.Pct("websocket", 25)
+	sc.Client.WebSocket = sc.WebSocket
 	sc.Client.SM = g.Bool("sm")
 	sc.Server.SM = sc.Client.SM
 	sc.Seg, sc.LatencyNs = netModes(g, e)
@@ -64,9 +67,25 @@ func runC05(e *Engine, g G, o RunOpt) RunInfo {
 		// business); keep it out of this scenario
 		io2.AllowA = false
 	}
+	if sc.WebSocket {
+		io2.AllowBig = false // frames are limited to 32 KiB by the transport
+		io2.AllowSpace = false
+		if n > 25 {
+			n = 25
+		}
+	}
 	sc.Inbound = GenInbound(g, n, io2)
+	if sc.WebSocket {
+		// one element per frame, each with the namespace declaration framing requires
+		for i := range sc.Inbound {
+			sc.Inbound[i].Raw = withClientNS(sc.Inbound[i].Raw)
+		}
+	}
 	total := lastEnd(sc.Inbound)
 	sc.Cut = g.Pct("cut", 35)
+	if sc.WebSocket && o.Avoiding("websocket-connection-loss") {
+		sc.Cut = false
+	}
 	if sc.Cut {
 		sc.CutAt = int64(g.Range("cutat", 0, int(total)))
 		sc.CutKind = []string{"fin", "rst", "rst-discard"}[g.N("cutkind", 3)]
@@ -90,6 +109,55 @@ func runC05(e *Engine, g G, o RunOpt) RunInfo {
 					s.SendRaw(fmt.Sprintf("<message id='echo-%s' to='peer@%s'><body>got it</body></message>", id, SimDomain))
 				}
 			}
+		}
+		if sc.WebSocket {
+			ws := NewWSServer(e)
+			defer ws.Stop()
+			ws.SM = sc.Client.SM
+			w := NewCW(e, sc.Client, sharedCerts())
+			w.Dawdle = sc.Dawdle
+			w.OnPacket = sendBack
+			w.CatchAll()
+			handled = &w.Handled
+			if err := w.Create(); err != nil {
+				return
+			}
+			err, _ := e.Call("Connect", w.Client.Connect)
+			if err != nil || len(ws.Conns) == 0 || !ws.Conns[0].Established {
+				return
+			}
+			e.Sleep(50 * time.Millisecond)
+			wc := ws.Conns[0]
+			established = true
+			cli = wc.Pipe.Cli
+			base = wc.Pipe.Srv.TotalWritten
+			panicsBefore = len(e.Panics)
+			if sc.Cut {
+				cli.CutAt = base + sc.CutAt
+				cli.CutErr = io.EOF
+				if sc.CutKind != "fin" {
+					cli.CutErr = resetErr("read")
+					cli.CutDiscard = sc.CutKind == "rst-discard"
+				}
+			}
+			for i := range sc.Inbound {
+				wc.Send(sc.Inbound[i].Raw)
+				sc.Inbound[i].End = wc.Pipe.Srv.TotalWritten - base
+				e.Yield("srv.more")
+			}
+			total = lastEnd(sc.Inbound)
+			e.WaitUntilFor("drain", 10*time.Minute, func() bool {
+				return cli.rTerm != nil || cli.IsClosed() || (cli.TotalRead >= base+total)
+			})
+			e.Sleep(30 * time.Second)
+			readAtEnd = cli.TotalRead
+			for _, el := range wc.Recv {
+				if el.Is(nsSM, "a") {
+					answered++
+				}
+			}
+			e.Probe("c05.websocket")
+			return
 		}
 		if sc.Component {
 			w, _, c, ok := StartComponent(e, "s3cr3t", sc.Server, func(w *CompW, s *Server) {
@@ -149,6 +217,9 @@ func runC05(e *Engine, g G, o RunOpt) RunInfo {
 	})
 
 	info := RunInfo{Scenario: sc, Nontrivial: established && len(sc.Inbound) > 0}
+	if sc.WebSocket && sc.Cut {
+		info.Triggers = append(info.Triggers, "websocket-connection-loss")
+	}
 	if !established {
 		e.Probe("precondition_failed")
 		return info
